@@ -69,6 +69,8 @@ pub fn replay(a: &Args) {
     let mut drift = 0usize;
     let mut drift_samples: Vec<Value> = Vec::new();
     let mut renders = a.get("render-trace").map(|p| Out::create(&p));
+    let repeat = a.num("repeat", 0) as usize;
+    let mut repeated = 0usize;
     for c in &cases {
         let ops = c["ops"].as_array().expect("ops");
         let mut root: Option<Element<String>> = None;
@@ -115,11 +117,31 @@ pub fn replay(a: &Args) {
             }
             t.line(&crate::render::render_event(e, &opts, json!({"ops": ops})));
         }
+        // C05 on hand-built trees: every rendering builds fresh HashMaps, so repetitions range over iteration orders
+        if let (true, Some(e)) = (repeat > 0, root.as_ref()) {
+            let all = crate::rewrite::render_all(e);
+            for _ in 0..repeat {
+                repeated += 1;
+                let again = crate::rewrite::render_all(e);
+                if again != all {
+                    mismatches.push(json!({"kind": "repeat-tree", "class": "c05", "ops": ops, "first": all, "other": again}));
+                    break;
+                }
+            }
+        }
     }
     let lines = trace.map(|t| t.finish()).unwrap_or(0);
     let rlines = renders.map(|t| t.finish()).unwrap_or(0);
+    if repeat > 0 {
+        println!("{}", json!({"repeated": repeated}));
+    }
     finish_report("api", cases.len(), &mismatches, a.get("mismatches"),
         json!({"steps": steps, "trace_events": lines, "render_events": rlines, "drift": drift, "drift_samples": drift_samples}));
+}
+
+thread_local! {
+    /// percentage of operations that address the root (wide trees)
+    static ROOT_BIAS: std::cell::Cell<usize> = const { std::cell::Cell::new(0) };
 }
 
 /// a random operation over the name pools (paths are taken from the current tree)
@@ -142,7 +164,7 @@ fn random_op(r: &mut Rng, root: &Element<String>, names: &[String], attrs: &[Str
     }
     let mut all = Vec::new();
     collect(root, &mut Vec::new(), &mut all);
-    let path: Vec<String> = all[r.below(all.len())].clone();
+    let path: Vec<String> = if r.chance(ROOT_BIAS.with(|b| b.get()), 100) { Vec::new() } else { all[r.below(all.len())].clone() };
     let pathv: Vec<Value> = path.iter().map(|p| crate::render::chars(p)).collect();
     let name = crate::render::chars(&names[r.below(names.len())]);
     let mut al: Vec<String> = attrs.iter().filter(|_| r.chance(1, 4)).cloned().collect();
@@ -177,12 +199,13 @@ pub fn record(a: &Args) {
     if with_remove {
         kinds.push("remove");
     }
+    ROOT_BIAS.with(|b| b.set(a.num("root-bias", 0) as usize));
     let kinds_arg = a.get("kinds");
     if let Some(k) = &kinds_arg {
         kinds = k.split(',').collect();
     }
     for _ in 0..n {
-        let k = 2 + r.below(5);
+        let k = if a.get("pool-all").is_some() { pool.len() } else { 2 + r.below(5) };
         let mut names = pool.clone();
         r.shuffle(&mut names);
         names.truncate(k.min(names.len()));
